@@ -8,18 +8,21 @@ Arguments propagate : simpl never.
 
 (* ------------------------------------------------------------------ Value.setValue vs. pack *)
 
-Lemma accum_from_list : forall r l0, accum_from (PList l0) true r = PList (l0 ++ r).
+Lemma accum_from_list : forall r l0, accum_from (PList l0) r = PList (l0 ++ r).
 Proof.
   induction r as [|x r IH]; intros l0; simpl.
   - now rewrite app_nil_r.
   - rewrite IH. now rewrite <- app_assoc.
 Qed.
 
-(* a fresh Value that receives the results l holds pack l, provided the first result is not itself a list *)
-Lemma accum_pack : forall l, (match l with x :: _ :: _ => is_list x = false | _ => True end) -> accum l = pack l.
+(* a fresh Value that receives the (non-None) results l holds pack l, provided the first result is not
+   itself a list *)
+Lemma accum_pack : forall l,
+  (match l with x :: _ :: _ => is_list x = false /\ is_none x = false | _ => True end) -> accum l = pack l.
 Proof.
   intros [|x [|y r]] H; try reflexivity.
-  unfold accum. simpl. destruct x; simpl in *; try discriminate; now rewrite accum_from_list.
+  unfold accum. simpl. destruct H as (H1 & H2).
+  destruct x; simpl in *; try discriminate; now rewrite accum_from_list.
 Qed.
 
 (* ... and merges them into that list otherwise *)
@@ -228,13 +231,9 @@ Qed.
 
 Definition nonempty {A} (l : list A) : bool := match l with [] => false | _ => true end.
 
-Lemma accum_from_app : forall l1 l2 c r,
-  accum_from c r (l1 ++ l2) = accum_from (accum_from c r l1) (r || nonempty l1) l2.
-Proof.
-  induction l1 as [|x l1 IH]; intros; simpl.
-  - now rewrite orb_false_r.
-  - rewrite IH. now rewrite orb_true_r.
-Qed.
+Lemma accum_from_app : forall l1 l2 c,
+  accum_from c (l1 ++ l2) = accum_from (accum_from c l1) l2.
+Proof. induction l1 as [|x l1 IH]; intros; simpl; auto. Qed.
 
 Lemma produced_app : forall sp e l lg, produced sp e (l ++ lg) = produced sp e lg ++ produced sp e l.
 Proof. intros. unfold produced. now rewrite rev_app_distr, flat_map_app. Qed.
@@ -273,6 +272,21 @@ Qed.
 Lemma nonempty_app : forall A (a b : list A), nonempty (a ++ b) = nonempty a || nonempty b.
 Proof. intros. destruct a; simpl; auto. Qed.
 
+Lemma produced_no_none : forall sp e lg, Forall (fun x => is_none x = false) (produced sp e lg).
+Proof.
+  intros. unfold produced. induction (rev lg) as [|x r IH]; simpl; [constructor|].
+  apply Forall_app. split; auto.
+  assert (Hnn : forall v, Forall (fun x => is_none x = false) (nonnone v))
+    by (intros v; unfold nonnone; destruct (is_none v) eqn:E; repeat constructor; auto).
+  destruct x; simpl; try constructor.
+  - destruct (Nat.eqb e0 e); [|constructor].
+    destruct (nth_error (ev_hs (sp e)) i) as [[kids rr|]|]; try constructor.
+    destruct (unstop rr); auto; repeat constructor.
+  - destruct (Nat.eqb e0 e); [|constructor].
+    destruct (nth_error (ev_hs (sp e)) i) as [[|ys lk gr]|]; try constructor.
+    destruct (nth_error ys k) as [[kk y]|]; auto. destruct gr; repeat constructor.
+Qed.
+
 (* the Value of event e, its errors flag and the feedback events fired about e agree with the
    handler activity recorded in the log *)
 Record VC (s : st) (e : nat) : Prop := {
@@ -285,7 +299,7 @@ Record VC (s : st) (e : nat) : Prop := {
 
 Lemma VC_step : forall s s' e l,
   VC s e -> spec s' e = spec s e -> log s' = l ++ log s ->
-  vv (val s' e) = accum_from (vv (val s e)) (vresult (val s e)) (produced (spec s) e l) ->
+  vv (val s' e) = accum_from (vv (val s e)) (produced (spec s) e l) ->
   vresult (val s' e) = vresult (val s e) || nonempty (produced (spec s) e l) ->
   verrors (val s' e) = verrors (val s e) || (0 <? nraised (spec s) e l) ->
   count_der DExc e l = nraised (spec s) e l ->
@@ -298,7 +312,7 @@ Proof.
   assert (Hn : nraised (spec s') e (log s') = nraised (spec s) e l + nraised (spec s) e (log s)).
   { rewrite Hlog, (nraised_sp (spec s) (spec s')) by auto. apply nraised_app. }
   split.
-  - rewrite Hp, H1. unfold accum. rewrite accum_from_app. simpl. now rewrite v1, v2.
+  - rewrite Hp, H1. unfold accum. rewrite accum_from_app. fold (accum (produced (spec s) e (log s))). now rewrite v1.
   - rewrite Hp, H2, nonempty_app. now rewrite v2.
   - rewrite Hn, H3, v3.
     destruct (nraised (spec s) e l), (nraised (spec s) e (log s)); simpl; auto.
@@ -414,7 +428,7 @@ Proof.
 Qed.
 
 Definition setv (v : value) (x : pyval) : value :=
-  {| vv := set_py (vv v) (vresult v) x; vresult := vresult v || negb (is_none x);
+  {| vv := set_py (vv v) x; vresult := vresult v || negb (is_none x);
      verrors := verrors v; vpromise := vpromise v |}.
 Definition seterr (v : value) : value :=
   {| vv := vv v; vresult := vresult v; verrors := true; vpromise := vpromise v |}.
@@ -542,15 +556,16 @@ Proof.
   destruct (enter_vop e (LH e i) kids s He eq_refl) as (lk & Hv1 & Hlk & Hval1 & Hn1).
   set (s2 := fire_all kids (add_log (LH e i) s)) in *.
   assert (He2 : e < next s2) by lia.
-  assert (Hc : contrib (spec s) e (LH e i) = match r with RRet v => nonnone v | RRaise => [PErr] | RNest _ => [] end).
-  { simpl. rewrite Nat.eqb_refl, Hnth. now destruct r. }
-  assert (Hr : raises (spec s) e (LH e i) = match r with RRet _ => false | RRaise => true | RNest _ => false end).
-  { simpl. rewrite Nat.eqb_refl, Hnth. now destruct r. }
+  assert (Hc : contrib (spec s) e (LH e i) = match unstop r with RRet v => nonnone v | RRaise => [PErr] | _ => [] end).
+  { simpl. now rewrite Nat.eqb_refl, Hnth. }
+  assert (Hr : raises (spec s) e (LH e i) = match unstop r with RRaise => true | _ => false end).
+  { simpl. now rewrite Nat.eqb_refl, Hnth. }
   pose proof (LF_nonh _ _ Hlk) as Hlk1. pose proof (LF_nosucc _ _ Hlk) as Hlk2.
   pose proof (count_der_LF DExc e _ _ Hlk) as Hlk3. pose proof (count_der_LF DFail e _ _ Hlk) as Hlk4.
   assert (Hp2 : vpar s2 = vpar s) by (unfold s2; now rewrite vpar_fire_all).
-  destruct r as [v| |sp]; simpl run_handler;
-    [| | simpl in Hpl; rewrite andb_false_r in Hpl; discriminate].
+  destruct r as [v| |sp|r']; simpl unstop in Hc, Hr; simpl run_handler;
+    [| | simpl in Hpl; rewrite andb_false_r in Hpl; discriminate
+       | simpl in Hpl; rewrite andb_false_r in Hpl; discriminate].
   - destruct (is_none v) eqn:Hnone; simpl fst; simpl snd; fold s2.
     + (* return None *)
       exists (lk ++ [LH e i]). split; [exact Hv1|]. split; [fa; repeat constructor|].
@@ -691,6 +706,17 @@ Proof.
   - simpl. now rewrite !upd_same.
 Qed.
 
+Lemma plain_stops : forall h, plain_hdl h = true -> stops h = false.
+Proof.
+  intros [kids r|ys lk gr] H; auto. destruct r; auto. simpl in H. rewrite andb_false_r in H. discriminate.
+Qed.
+
+Lemma plain_no_stop : forall hs, forallb plain_hdl hs = true -> existsb stops hs = false.
+Proof.
+  induction hs as [|h r IH]; intros H; simpl; auto. simpl in H. apply andb_prop in H. destruct H as (H1 & H2).
+  now rewrite (plain_stops _ H1), IH.
+Qed.
+
 Lemma run_handlers_sum : forall e hs i err s pre,
   e < next s -> ev_hs (spec s e) = pre ++ hs -> length pre = i ->
   vpar s e = None -> forallb plain_hdl hs = true ->
@@ -704,7 +730,7 @@ Proof.
   - assert (Hnth : nth_error (ev_hs (spec s e)) i = Some h).
     { rewrite Hpre, nth_error_app2 by lia. now rewrite <- Hlen, Nat.sub_diag. }
     simpl in Hpl. apply andb_prop in Hpl. destruct Hpl as (Hph & Hpr).
-    simpl run_handlers.
+    simpl run_handlers. rewrite (plain_stops _ Hph).
     destruct (run_handler e i h err s) as [s1 err1] eqn:Hrun.
     assert (Hunit : exists l1 t1, dsum e l1 t1 s s1 /\
               ((err = true -> verrors (val s e) = true) -> err1 = true -> verrors (val s1 e) = true) /\
@@ -1016,9 +1042,11 @@ Lemma dispatch_user_ssum : forall e s,
   ssum e s (dispatch e s).
 Proof.
   intros e s He Hk Hw Hnp Hpl. unfold dispatch. rewrite Hk.
+  rewrite plain_ev_hs in Hpl.
+  assert (Hns : existsb stops (ev_hs (spec (set_phase e PActive s) e)) = false) by (apply plain_no_stop; exact Hpl).
+  rewrite Hns.
   set (s0 := set_phase e PActive s).
   assert (He0 : e < next s0) by (simpl; lia).
-  rewrite plain_ev_hs in Hpl.
   destruct (run_handlers_sum e (ev_hs (spec s0 e)) 0 false s0 [] He0 eq_refl eq_refl Hnp Hpl)
     as (l1 & t1 & Hd1 & Herr1 & _).
   destruct (run_handlers e 0 (ev_hs (spec s0 e)) false s0) as [s1 err] eqn:Hrun. simpl fst in *. simpl snd in *.
@@ -1449,7 +1477,7 @@ Proof.
   intros e i h err s H Hp. destruct h as [kids r | ys lk gr]; simpl.
   - simpl in Hp. apply andb_prop in Hp. destruct Hp as (Hk & Hr).
     assert (H1 : OKs (fire_all kids (add_log (LH e i) s))) by (apply oks_fire_all; auto).
-    destruct r as [v| |sp]; simpl; try discriminate.
+    destruct r as [v| |sp|r']; simpl; try discriminate.
     + destruct (is_none v); auto. apply oks_set_value; auto. now apply negb_true_iff in Hr.
     + apply oks_set_value; auto. apply oks_raise_feedback. exact H1.
   - exact H.
@@ -1461,7 +1489,7 @@ Proof.
   intros e hs. induction hs as [|h r IH]; intros i err s H Hp; simpl; auto.
   simpl in Hp. apply andb_prop in Hp. destruct Hp as (Hp1 & Hp2).
   pose proof (oks_run_handler e i h err s H Hp1) as H1.
-  destruct (run_handler e i h err s) as [s1 err1]. simpl in *. apply IH; auto.
+  destruct (run_handler e i h err s) as [s1 err1]. simpl in *. rewrite (plain_stops _ Hp1). apply IH; auto.
 Qed.
 
 Lemma oks_dispatch : forall e s, OKs s -> OKs (dispatch e s).
@@ -1564,7 +1592,11 @@ Proof. intros s e Hr He. destruct (i_vc _ _ (reachable_inv s Hr) e He). auto. Qe
 Theorem value_packed : forall s e, reachable_plain s -> e < next s ->
   (match produced (spec s) e (log s) with x :: _ :: _ => is_list x = false | _ => True end) ->
   vv (val s e) = pack (produced (spec s) e (log s)).
-Proof. intros s e Hr He H. destruct (value_tracks s e Hr He) as (-> & _). now apply accum_pack. Qed.
+Proof.
+  intros s e Hr He H. destruct (value_tracks s e Hr He) as (-> & _). apply accum_pack.
+  pose proof (produced_no_none (spec s) e (log s)) as Hn.
+  destruct (produced (spec s) e (log s)) as [|x [|y r]]; auto. split; auto. now inversion Hn.
+Qed.
 
 (* one exception event per raise; one <name>_failure per raise iff failure feedback was requested *)
 Theorem feedback_counts : forall s e, reachable_plain s -> e < next s ->
@@ -1617,7 +1649,7 @@ Proof.
   - assert (Hnth : nth_error (ev_hs (spec s e)) i = Some h0).
     { rewrite Hpre, nth_error_app2 by lia. now rewrite <- Hlen, Nat.sub_diag. }
     simpl in Hpl. apply andb_prop in Hpl. destruct Hpl as (Hph & Hpr).
-    simpl run_handlers. destruct (run_handler e i h0 err s) as [s1 err1] eqn:Hrun.
+    simpl run_handlers. rewrite (plain_stops _ Hph). destruct (run_handler e i h0 err s) as [s1 err1] eqn:Hrun.
     assert (Hu : exists l1 t1, dsum e l1 t1 s s1 /\
               match h0 with HP _ _ => In (LH e i) l1 | HG _ _ _ => In {| tev := e; thd := i; tk := 0 |} t1 end /\
               vpar s1 = vpar s).
@@ -1654,6 +1686,8 @@ Theorem dispatch_runs_all : forall s e j h,
   end.
 Proof.
   intros s e j h He Hk Hj Hnp Hpl. unfold dispatch. rewrite Hk. rewrite plain_ev_hs in Hpl.
+  assert (Hns : existsb stops (ev_hs (spec (set_phase e PActive s) e)) = false) by (apply plain_no_stop; exact Hpl).
+  rewrite Hns.
   set (s0 := set_phase e PActive s).
   assert (He0 : e < next s0) by (simpl; lia).
   pose proof (run_handlers_all e (ev_hs (spec s0 e)) 0 false s0 [] He0 eq_refl eq_refl Hnp Hpl j h Hj) as Hall.
@@ -1842,7 +1876,9 @@ Lemma dispatch_shape : forall e s, e < next s -> vpar s e = None -> plain_ev (sp
   (forall t, In t (tasks s) -> In t (tasks (dispatch e s))) /\
   (forall x, In x (log s) -> In x (log (dispatch e s))).
 Proof.
-  intros e s He Hnp Hpl. unfold dispatch. rewrite plain_ev_hs in Hpl. destruct (kind s e) as [|k x a o] eqn:Hk.
+  intros e s He Hnp Hpl. unfold dispatch. rewrite plain_ev_hs in Hpl.
+  assert (Hns : existsb stops (ev_hs (spec (set_phase e PActive s) e)) = false) by (apply plain_no_stop; exact Hpl).
+  destruct (kind s e) as [|k x a o] eqn:Hk; [rewrite Hns|].
   - set (s0 := set_phase e PActive s).
     assert (He0 : e < next s0) by exact He.
     destruct (run_handlers_sum e (ev_hs (spec s0 e)) 0 false s0 [] He0 eq_refl eq_refl Hnp Hpl)
@@ -2048,7 +2084,6 @@ Proof.
   eapply lext_trans; [|apply lext_propagate]. apply lext_same. reflexivity.
 Qed.
 
-Definition raising (h : hdl) : bool := match h with HP _ RRaise => true | _ => false end.
 
 Lemma lext_run_handler : forall e i h err s,
   lext s (fst (run_handler e i h err s)) /\ snd (run_handler e i h err s) = err || raising h.
@@ -2056,7 +2091,7 @@ Proof.
   intros e i h err s. destruct h as [kids r | ys lk gr]; simpl.
   - assert (H1 : lext s (fire_all kids (add_log (LH e i) s))).
     { eapply lext_trans; [|apply lext_fire_all]. exists [LH e i]. split; auto. repeat constructor. }
-    destruct r as [v| |sp]; simpl.
+    destruct (unstop r) as [v| |sp|r']; simpl.
     + split; [|now rewrite orb_false_r]. destruct (is_none v); auto.
       eapply lext_trans; [exact H1 | apply lext_set_value].
     + split; [|now rewrite orb_true_r].
@@ -2065,19 +2100,23 @@ Proof.
     + split; [|now rewrite orb_false_r].
       eapply lext_trans; [exact H1|]. eapply lext_trans; [|apply lext_set_value].
       eapply lext_ext; [apply ext_fire_user | repeat constructor].
+    + split; [exact H1 | now rewrite orb_false_r].
   - split; [apply lext_same; reflexivity | now rewrite orb_false_r].
 Qed.
 
 Lemma lext_run_handlers : forall e hs i err s,
-  lext s (fst (run_handlers e i hs err s)) /\ snd (run_handlers e i hs err s) = err || existsb raising hs.
+  lext s (fst (run_handlers e i hs err s)) /\
+  snd (run_handlers e i hs err s) = err || existsb raising (upto_stop hs).
 Proof.
   intros e hs. induction hs as [|h r IH]; intros i err s; simpl.
   - split; [apply lext_refl | now rewrite orb_false_r].
   - destruct (lext_run_handler e i h err s) as (H1 & H2).
     destruct (run_handler e i h err s) as [s1 err1]. simpl in *. subst err1.
-    destruct (IH (S i) (err || raising h) s1) as (H3 & H4). split.
-    + eapply lext_trans; eauto.
-    + rewrite H4. now rewrite orb_assoc.
+    destruct (stops h); simpl.
+    + split; auto. now rewrite orb_false_r.
+    + destruct (IH (S i) (err || raising h) s1) as (H3 & H4). split.
+      * eapply lext_trans; eauto.
+      * rewrite H4. now rewrite orb_assoc.
 Qed.
 
 Lemma lext_log_all : forall xs s, Forall nosucc xs -> lext s (log_all xs s).
@@ -2089,7 +2128,7 @@ Qed.
 (* whatever else its handlers do (return Values of nested events, fire events, register generators):
    if a plain handler of e raises, the dispatcher pass of e fires no <name>_success at all *)
 Theorem pass_failure_blocks_success : forall s e d,
-  kind s e = KUser -> existsb raising (ev_hs (spec s e)) = true ->
+  kind s e = KUser -> existsb raising (upto_stop (ev_hs (spec s e))) = true ->
   count_der DSucc d (log (dispatch e s)) = count_der DSucc d (log s).
 Proof.
   intros s e d Hk Hr. unfold dispatch. rewrite Hk.
@@ -2097,13 +2136,1072 @@ Proof.
   destruct (lext_run_handlers e (ev_hs (spec s0 e)) 0 false s0) as (H1 & H2).
   destruct (run_handlers e 0 (ev_hs (spec s0 e)) false s0) as [s1 err]. simpl in H1, H2.
   change (spec s0 e) with (spec s e) in H2. rewrite Hr in H2. simpl in H2. subst err.
-  set (xs := map (LDU e) (observers true (ev_both (spec s1 e)))).
+  set (xs := if existsb stops (ev_hs (spec s0 e)) then [] else map (LDU e) (observers true (ev_both (spec s1 e)))).
   assert (Hxs : Forall nosucc xs).
-  { unfold xs, observers. destruct (ev_both (spec s1 e)); simpl; repeat constructor. }
+  { unfold xs, observers. destruct (existsb stops (ev_hs (spec s0 e))); [constructor|].
+    destruct (ev_both (spec s1 e)); simpl; repeat constructor. }
   pose proof (lext_log_all xs s1 Hxs) as H3.
   assert (H4 : log (event_done e true (log_all xs s1)) = log (log_all xs s1)).
   { unfold event_done. destruct (Nat.eqb (waiting (log_all xs s1) e) 0); reflexivity. }
   rewrite H4.
   destruct (lext_trans _ _ _ (lext_trans s s0 s1 (lext_same _ _ eq_refl) H1) H3) as (l & Hl & Hn).
   rewrite Hl, count_der_app, (nosucc_count d l Hn). reflexivity.
+Qed.
+
+(* ------------------------------------------------------------------ ALL programs (nested Values, event.stop()):
+   every handler is invoked at most once, generator segments are entered in order, at most once each *)
+
+
+Lemma hpart_app : forall a b, hpart (a ++ b) = hpart a ++ hpart b.
+Proof. intros. apply filter_app. Qed.
+Lemma hpart_nonh : forall l, Forall nonh l -> hpart l = [].
+Proof. induction 1 as [|x l Hx _ IH]; simpl; auto. destruct x; simpl in *; try contradiction; auto. Qed.
+
+(* [wfr e h s s']: a step working on event e; h = the handler-activity entries it logged (newest first).
+   Nothing is said about Values. *)
+Record wfr (e : nat) (h : list entry) (s s' : st) : Prop := {
+  w_next : next s <= next s';
+  w_old : forall d, d < next s -> d <> e -> phase s' d = phase s d;
+  w_e : phase s e <> PQueued -> phase s' e <> PQueued;
+  w_new : forall d, next s <= d < next s' -> phase s' d = PQueued;
+  w_queue : queue s' = queue s ++ seq (next s) (next s' - next s);
+  w_log : exists l, log s' = l ++ log s /\ hpart l = h
+}.
+
+Lemma wfr_trans : forall e h1 h2 s s1 s2,
+  e < next s -> wfr e h1 s s1 -> wfr e h2 s1 s2 -> wfr e (h2 ++ h1) s s2.
+Proof.
+  intros e h1 h2 s s1 s2 He [n1 o1 e1 w1 q1 (l1 & g1 & p1)] [n2 o2 e2 w2 q2 (l2 & g2 & p2)]. split.
+  - lia.
+  - intros d Hd Hne. rewrite o2 by lia. auto.
+  - auto.
+  - intros d Hd. destruct (Nat.lt_ge_cases d (next s1)) as [Hlt|Hge].
+    + rewrite o2 by lia. apply w1. lia.
+    + apply w2. lia.
+  - rewrite q2, q1, <- app_assoc. f_equal. symmetry. apply seq_split2; lia.
+  - exists (l2 ++ l1). split; [rewrite g2, g1; now rewrite app_assoc | rewrite hpart_app; congruence].
+Qed.
+
+(* a step that touches neither phases (of existing events) nor tasks and logs no handler activity *)
+Record wext (s s' : st) : Prop := {
+  y_next : next s <= next s';
+  y_old : forall d, d < next s -> phase s' d = phase s d;
+  y_new : forall d, next s <= d < next s' -> phase s' d = PQueued;
+  y_queue : queue s' = queue s ++ seq (next s) (next s' - next s);
+  y_tasks : tasks s' = tasks s;
+  y_log : exists l, log s' = l ++ log s /\ Forall nonh l
+}.
+
+Lemma wext_refl : forall s, wext s s.
+Proof.
+  intros. split; auto.
+  - intros d Hd. exfalso. lia.
+  - rewrite Nat.sub_diag. simpl. now rewrite app_nil_r.
+  - exists []. split; auto.
+Qed.
+Lemma wext_trans : forall s s1 s2, wext s s1 -> wext s1 s2 -> wext s s2.
+Proof.
+  intros s s1 s2 [n1 o1 w1 q1 t1 (l1 & g1 & p1)] [n2 o2 w2 q2 t2 (l2 & g2 & p2)]. split.
+  - lia.
+  - intros d Hd. rewrite o2 by lia. auto.
+  - intros d Hd. destruct (Nat.lt_ge_cases d (next s1)) as [Hlt|Hge].
+    + rewrite o2 by lia. apply w1. lia.
+    + apply w2. lia.
+  - rewrite q2, q1, <- app_assoc. f_equal. symmetry. apply seq_split2; lia.
+  - congruence.
+  - exists (l2 ++ l1). split; [rewrite g2, g1; now rewrite app_assoc | apply Forall_app; auto].
+Qed.
+Lemma wext_ext : forall l s s', ext l s s' -> Forall nonh l -> wext s s'.
+Proof.
+  intros l s s' [n o w t q g] Hl. split; auto.
+  - intros d Hd. now destruct (o d Hd) as (_ & _ & _ & _ & ?).
+  - intros d Hd. now destruct (w d Hd) as (? & _ & _).
+  - exists l. auto.
+Qed.
+Lemma wext_same : forall s s',
+  next s' = next s -> phase s' = phase s -> queue s' = queue s -> tasks s' = tasks s -> log s' = log s ->
+  wext s s'.
+Proof.
+  intros s s' Hn Hp Hq Ht Hl. split.
+  - lia.
+  - intros. now rewrite Hp.
+  - intros d Hd. exfalso. lia.
+  - rewrite Hn, Nat.sub_diag, Hq. simpl. now rewrite app_nil_r.
+  - exact Ht.
+  - exists []. split; auto.
+Qed.
+
+Lemma wext_fire_all : forall kids s, wext s (fire_all kids s).
+Proof. intros. destruct (ext_fire_all kids s) as (l & Hx & Hl). eapply wext_ext; eauto. eapply LF_nonh; eauto. Qed.
+Lemma wext_fire_der : forall k e s, wext s (fire_der k e s).
+Proof. intros. eapply wext_ext; [apply ext_fire_der|]. repeat constructor. Qed.
+Lemma wext_inform : forall f e s, wext s (inform f e s).
+Proof.
+  intros. destruct (ext_inform f e s) as (l & Hx & Hl). eapply wext_ext; eauto.
+  destruct Hl as [-> | ->]; repeat constructor.
+Qed.
+Lemma wext_raise_feedback : forall e s, wext s (raise_feedback e s).
+Proof. intros. eapply wext_ext; [apply ext_raise_feedback|]. apply (fb_facts e (ev_fail (spec s e))). Qed.
+
+Lemma wext_propagate : forall f o x s, wext s (propagate f o x s).
+Proof.
+  induction f as [|f IH]; intros o x s; unfold propagate; fold propagate; [apply wext_refl|].
+  destruct (vpar s o) as [p|]; [|apply wext_refl].
+  eapply wext_trans; [|apply IH].
+  destruct x; try (apply wext_same; reflexivity);
+    (eapply wext_trans; [|apply wext_inform]; apply wext_same; reflexivity).
+Qed.
+
+Lemma wext_set_value : forall e x s, wext s (set_value e x s).
+Proof.
+  intros e x s. unfold set_value.
+  assert (Hl : wext s (set_value_local e x s)).
+  { unfold set_value_local. destruct (is_none x); [apply wext_same; reflexivity|].
+    eapply wext_trans; [|apply wext_inform]. apply wext_same; reflexivity. }
+  destruct x; try (eapply wext_trans; [exact Hl | apply wext_propagate]).
+  eapply wext_trans; [|apply wext_propagate]. apply wext_same; reflexivity.
+Qed.
+
+Lemma wfr_wext : forall e s s', e < next s -> wext s s' -> wfr e [] s s'.
+Proof.
+  intros e s s' He [n o w q t (l & g & p)]. split; auto.
+  - now rewrite o.
+  - exists l. split; auto. now apply hpart_nonh.
+Qed.
+
+(* a unit of handler activity on e: frame, new tasks, phase of e untouched *)
+Record wu (e : nat) (h : list entry) (tn : list task) (s s' : st) : Prop := {
+  wu_fr : wfr e h s s';
+  wu_tasks : tasks s' = tasks s ++ tn;
+  wu_ph : phase s' e = phase s e
+}.
+
+Lemma wu_trans : forall e h1 h2 t1 t2 s s1 s2,
+  e < next s -> wu e h1 t1 s s1 -> wu e h2 t2 s1 s2 -> wu e (h2 ++ h1) (t1 ++ t2) s s2.
+Proof.
+  intros e h1 h2 t1 t2 s s1 s2 He [f1 a1 p1] [f2 a2 p2]. split.
+  - eapply wfr_trans; eauto.
+  - rewrite a2, a1. now rewrite app_assoc.
+  - congruence.
+Qed.
+Lemma wu_wext : forall e s s', e < next s -> wext s s' -> wu e [] [] s s'.
+Proof.
+  intros e s s' He Hx. split.
+  - now apply wfr_wext.
+  - rewrite (y_tasks _ _ Hx). now rewrite app_nil_r.
+  - apply (y_old _ _ Hx). exact He.
+Qed.
+Lemma wu_same : forall e s s', e < next s ->
+  next s' = next s -> phase s' = phase s -> queue s' = queue s -> tasks s' = tasks s -> log s' = log s ->
+  wu e [] [] s s'.
+Proof. intros. apply wu_wext; auto. now apply wext_same. Qed.
+Lemma wu_add_log : forall e x s, wu e (hpart [x]) [] s (add_log x s).
+Proof.
+  intros. split; simpl; auto; [|now rewrite app_nil_r]. split; simpl; auto.
+  - intros d Hd. exfalso. lia.
+  - rewrite Nat.sub_diag. simpl. now rewrite app_nil_r.
+  - exists [x]. split; auto.
+Qed.
+Lemma wu_next : forall e h t s s', wu e h t s s' -> next s <= next s'.
+Proof. intros e h t s s' H. apply (w_next _ _ _ _ (wu_fr _ _ _ _ _ H)). Qed.
+
+Lemma wrun_handler : forall e i h err s, e < next s ->
+  wu e (match h with HP _ _ => [LH e i] | HG _ _ _ => [] end)
+       (match h with HG _ _ _ => [{| tev := e; thd := i; tk := 0 |}] | _ => [] end)
+     s (fst (run_handler e i h err s)).
+Proof.
+  intros e i h err s He. destruct h as [kids r | ys lk gr]; simpl.
+  - assert (H1 : wu e [LH e i] [] s (fire_all kids (add_log (LH e i) s))).
+    { change [LH e i] with ([] ++ hpart [LH e i]). change (@nil task) with (@nil task ++ []).
+      eapply wu_trans; [exact He | apply wu_add_log | apply wu_wext; [exact He | apply wext_fire_all]]. }
+    assert (He1 : e < next (fire_all kids (add_log (LH e i) s))) by (pose proof (wu_next _ _ _ _ _ H1); lia).
+    assert (Hthen : forall s2, wext (fire_all kids (add_log (LH e i) s)) s2 -> wu e [LH e i] [] s s2).
+    { intros s2 Hx. change [LH e i] with ([] ++ [LH e i]). change (@nil task) with (@nil task ++ []).
+      eapply wu_trans; [exact He | exact H1 | apply wu_wext; auto]. }
+    destruct (unstop r) as [v| |sp|r']; simpl.
+    + destruct (is_none v); auto. apply Hthen. apply wext_set_value.
+    + apply Hthen. eapply wext_trans; [|apply wext_set_value].
+      eapply wext_trans; [|apply wext_raise_feedback]. apply wext_same; reflexivity.
+    + apply Hthen. eapply wext_trans; [|apply wext_set_value].
+      eapply wext_ext; [apply ext_fire_user | repeat constructor].
+    + exact H1.
+  - unfold add_task, set_promise. split; simpl; auto. split; simpl; auto.
+    + intros d Hd. exfalso. lia.
+    + rewrite Nat.sub_diag. simpl. now rewrite app_nil_r.
+    + exists []. split; auto.
+Qed.
+
+Definition lh_from (e i : nat) (x : entry) : Prop := exists j, x = LH e j /\ i <= j.
+Definition task_from (e i : nat) (t : task) : Prop := tev t = e /\ tk t = 0 /\ i <= thd t.
+
+Lemma wrun_handlers : forall e hs i err s, e < next s ->
+  exists h tn, wu e h tn s (fst (run_handlers e i hs err s)) /\
+    Forall (lh_from e i) h /\ NoDup h /\ Forall (task_from e i) tn /\ NoDup (map thd tn).
+Proof.
+  intros e hs. induction hs as [|h0 r IH]; intros i err s He; simpl.
+  - exists [], []. split; [apply wu_same; auto|]. repeat split; constructor.
+  - pose proof (wrun_handler e i h0 err s He) as H1.
+    destruct (run_handler e i h0 err s) as [s1 err1]. simpl in H1.
+    set (h1 := match h0 with HP _ _ => [LH e i] | HG _ _ _ => [] end) in *.
+    set (t1 := match h0 with HG _ _ _ => [{| tev := e; thd := i; tk := 0 |}] | _ => [] end) in *.
+    assert (Hh1 : Forall (lh_from e i) h1 /\ NoDup h1 /\ (forall x, In x h1 -> x = LH e i)).
+    { unfold h1. destruct h0; repeat split; repeat constructor; simpl; try tauto.
+      - exists i. auto.
+      - intros x [<-|[]]. auto. }
+    assert (Ht1 : Forall (task_from e i) t1 /\ NoDup (map thd t1) /\ (forall t, In t t1 -> thd t = i)).
+    { unfold t1. destruct h0; repeat split; repeat constructor; simpl; try tauto.
+      intros t [<-|[]]. auto. }
+    destruct Hh1 as (a1 & a2 & a3). destruct Ht1 as (b1 & b2 & b3).
+    destruct (stops h0); simpl.
+    + exists h1, t1. split; [exact H1|]. repeat split; auto.
+    + assert (He1 : e < next s1) by (pose proof (wu_next _ _ _ _ _ H1); lia).
+      destruct (IH (S i) err1 s1 He1) as (h2 & t2 & H2 & c1 & c2 & c3 & c4).
+      exists (h2 ++ h1), (t1 ++ t2). split; [eapply wu_trans; eauto|].
+      assert (Hw1 : forall x, lh_from e (S i) x -> lh_from e i x).
+      { intros x (j & -> & Hj). exists j. split; auto. lia. }
+      assert (Hw2 : forall t, task_from e (S i) t -> task_from e i t).
+      { intros t (p1 & p2 & p3). repeat split; auto. lia. }
+      repeat split.
+      * apply Forall_app. split; auto. eapply Forall_impl; [|exact c1]. auto.
+      * clear - a2 a3 c1 c2. induction h2 as [|x h2 IHh]; simpl; auto.
+        inversion c1; inversion c2; subst. constructor; auto.
+        intros Hin. apply in_app_or in Hin. destruct Hin as [Hin|Hin]; auto.
+        apply a3 in Hin. destruct H1 as (j & Hx & Hj). rewrite Hx in Hin. inversion Hin. lia.
+      * apply Forall_app. split; auto. eapply Forall_impl; [|exact c3]. auto.
+      * rewrite map_app. clear - b2 b3 c3 c4. induction t1 as [|t t1 IHt]; simpl; auto.
+        inversion b2; subst. constructor.
+        -- intros Hin. apply in_app_or in Hin. destruct Hin as [Hin|Hin]; auto.
+           apply in_map_iff in Hin. destruct Hin as (t' & Ht' & Hin).
+           rewrite Forall_forall in c3. destruct (c3 _ Hin) as (_ & _ & Hle).
+           rewrite Ht', (b3 t) in Hle by (simpl; auto). lia.
+        -- apply IHt; auto. intros t' Hin. apply b3. simpl; auto.
+Qed.
+
+Lemma wfr_same_but_phase : forall e p s, p <> PQueued -> wfr e [] s (set_phase e p s).
+Proof.
+  intros e p s Hp. split; simpl; auto.
+  - intros d Hd Hne. unfold upd. destruct (Nat.eqb d e) eqn:E; auto. apply Nat.eqb_eq in E. contradiction.
+  - intros _. now rewrite upd_same.
+  - intros d Hd. exfalso. lia.
+  - rewrite Nat.sub_diag. simpl. now rewrite app_nil_r.
+  - exists []. split; auto.
+Qed.
+
+Lemma wevent_done : forall e err s, e < next s ->
+  wfr e [] s (event_done e err s) /\ tasks (event_done e err s) = tasks s.
+Proof.
+  intros e err s He. unfold event_done. destruct (Nat.eqb (waiting s e) 0).
+  - cbv zeta. match goal with |- context [if ?c then _ else _] => destruct c end.
+    + split.
+      * change (@nil entry) with (@nil entry ++ []).
+        eapply wfr_trans; [exact He | apply (wfr_same_but_phase e PFin s); discriminate |].
+        apply wfr_wext; [exact He | apply wext_fire_der].
+      * rewrite (y_tasks _ _ (wext_fire_der DSucc e (set_phase e PFin s))). reflexivity.
+    + split; [apply wfr_same_but_phase; discriminate | reflexivity].
+  - split; [apply wfr_wext; [exact He | apply wext_refl] | reflexivity].
+Qed.
+
+Lemma wlog_all : forall xs s, Forall nonh xs -> wext s (log_all xs s).
+Proof.
+  induction xs as [|x r IH]; intros s H; simpl; [apply wext_refl|]. inversion H; subst.
+  eapply wext_trans; [|apply IH; auto].
+  split; simpl; auto.
+  - intros d Hd. exfalso. lia.
+  - rewrite Nat.sub_diag. simpl. now rewrite app_nil_r.
+  - exists [x]. split; auto.
+Qed.
+
+(* the dispatcher pass of e *)
+Lemma wdispatch : forall e s, e < next s ->
+  exists h tn, wfr e h s (dispatch e s) /\ tasks (dispatch e s) = tasks s ++ tn /\
+    phase (dispatch e s) e <> PQueued /\
+    Forall (lh_from e 0) h /\ NoDup h /\ Forall (task_from e 0) tn /\ NoDup (map thd tn).
+Proof.
+  intros e s He. unfold dispatch. destruct (kind s e) as [|k x a o].
+  - set (s0 := set_phase e PActive s).
+    assert (He0 : e < next s0) by exact He.
+    destruct (wrun_handlers e (ev_hs (spec s0 e)) 0 false s0 He0) as (h & tn & H1 & p1 & p2 & p3 & p4).
+    destruct (run_handlers e 0 (ev_hs (spec s0 e)) false s0) as [s1 err]. simpl in H1.
+    assert (He1 : e < next s1) by (pose proof (wu_next _ _ _ _ _ H1); lia).
+    set (xs := if existsb stops (ev_hs (spec s0 e)) then [] else map (LDU e) (observers true (ev_both (spec s1 e)))).
+    assert (Hxs : Forall nonh xs).
+    { unfold xs, observers. destruct (existsb stops (ev_hs (spec s0 e))); [constructor|].
+      destruct (ev_both (spec s1 e)); simpl; repeat constructor. }
+    pose proof (wlog_all xs s1 Hxs) as H2.
+    set (s2 := log_all xs s1) in *.
+    assert (He2 : e < next s2) by (pose proof (y_next _ _ H2); lia).
+    destruct (wevent_done e err s2 He2) as (H3 & Ht3).
+    assert (Hfr : wfr e h s (event_done e err s2)).
+    { assert (Hc : wfr e (([] ++ [] ++ h) ++ []) s (event_done e err s2)).
+      { eapply wfr_trans; [exact He | apply (wfr_same_but_phase e PActive s); discriminate |].
+        eapply wfr_trans; [exact He0 | | exact H3].
+        eapply wfr_trans; [exact He0 | apply (wu_fr _ _ _ _ _ H1) | apply wfr_wext; auto]. }
+      rewrite app_nil_r in Hc. exact Hc. }
+    exists h, tn. split; [exact Hfr|]. split.
+    { rewrite Ht3, (y_tasks _ _ H2), (wu_tasks _ _ _ _ _ H1). reflexivity. }
+    split.
+    { apply (w_e _ _ _ _ H3). rewrite (y_old _ _ H2 e He1), (wu_ph _ _ _ _ _ H1). simpl. rewrite upd_same. discriminate. }
+    auto.
+  - set (xs := map (LDD k x) (observers a o)).
+    assert (Hxs : Forall nonh xs).
+    { unfold xs, observers. destruct a, o; simpl; repeat constructor. }
+    pose proof (wlog_all xs s Hxs) as H2.
+    exists [], []. split.
+    { change (@nil entry) with (@nil entry ++ []).
+      eapply wfr_trans; [exact He | apply wfr_wext; [exact He | exact H2] |].
+      apply wfr_same_but_phase. discriminate. }
+    split; [simpl; rewrite (y_tasks _ _ H2); now rewrite app_nil_r|].
+    split; [simpl; rewrite upd_same; discriminate|].
+    repeat split; constructor.
+Qed.
+
+Lemma wtask_stop : forall p e s, e < next s ->
+  wfr e [] s (task_stop p e s) /\ tasks (task_stop p e s) = remove_nth p (tasks s).
+Proof.
+  intros p e s He. unfold task_stop.
+  set (s1 := set_tasks (remove_nth p (tasks s)) (set_wait e (pred (waiting s e)) s)).
+  assert (H1 : wfr e [] s s1).
+  { split; simpl; auto.
+    - intros d Hd. exfalso. lia.
+    - rewrite Nat.sub_diag. simpl. now rewrite app_nil_r.
+    - exists []. split; auto. }
+  assert (He1 : e < next s1) by exact He.
+  destruct (Nat.eqb (waiting s1 e) 0); [|split; auto].
+  pose proof (wext_inform true e s1) as H2.
+  assert (He2 : e < next (inform true e s1)) by (pose proof (y_next _ _ H2); lia).
+  destruct (wevent_done e false (inform true e s1) He2) as (H3 & Ht3). split.
+  - change (@nil entry) with (@nil entry ++ ([] ++ [])).
+    eapply wfr_trans; [exact He | | exact H3].
+    eapply wfr_trans; [exact He | exact H1 | apply wfr_wext; auto].
+  - rewrite Ht3, (y_tasks _ _ H2). reflexivity.
+Qed.
+
+Lemma wtask_raise : forall p e s, e < next s ->
+  wfr e [] s (task_raise p e s) /\ tasks (task_raise p e s) = remove_nth p (tasks s).
+Proof.
+  intros p e s He. unfold task_raise.
+  set (s1 := set_tasks (remove_nth p (tasks s)) s).
+  assert (H1 : wfr e [] s s1).
+  { split; simpl; auto.
+    - intros d Hd. exfalso. lia.
+    - rewrite Nat.sub_diag. simpl. now rewrite app_nil_r.
+    - exists []. split; auto. }
+  assert (He1 : e < next s1) by exact He.
+  set (s2 := inform true e (set_errors e (set_value e PErr s1))).
+  assert (H2 : wext s1 s2).
+  { unfold s2. eapply wext_trans; [apply wext_set_value|].
+    eapply wext_trans; [|apply wext_inform]. apply wext_same; reflexivity. }
+  set (s3 := raise_feedback e s2).
+  assert (H3 : wext s1 s3) by (eapply wext_trans; [exact H2 | apply wext_raise_feedback]).
+  set (s4 := set_wait e (pred (waiting s3 e)) s3).
+  assert (H4 : wext s1 s4) by (eapply wext_trans; [exact H3 | apply wext_same; reflexivity]).
+  assert (He4 : e < next s4) by (pose proof (y_next _ _ H4); lia).
+  destruct (wevent_done e true s4 He4) as (H5 & Ht5). split.
+  - change (@nil entry) with (@nil entry ++ ([] ++ [])).
+    eapply wfr_trans; [exact He | | exact H5].
+    eapply wfr_trans; [exact He | exact H1 | apply wfr_wext; auto].
+  - rewrite Ht5, (y_tasks _ _ H4). reflexivity.
+Qed.
+
+(* one task step: either nothing happens, or exactly one segment entry is logged and the task advances / ends *)
+Lemma wstep_task : forall p t0 s,
+  nth_error (tasks s) p = Some t0 -> tev t0 < next s ->
+  step_task p s = s \/
+  (wfr (tev t0) [LG (tev t0) (thd t0) (tk t0)] s (step_task p s) /\
+   (tasks (step_task p s) = replace_nth p {| tev := tev t0; thd := thd t0; tk := S (tk t0) |} (tasks s) \/
+    tasks (step_task p s) = remove_nth p (tasks s))).
+Proof.
+  intros p t0 s Hn He. unfold step_task. rewrite Hn. set (e := tev t0) in *.
+  destruct (nth_error (ev_hs (spec s e)) (thd t0)) as [[kids r | ys lk gr]|]; auto. right.
+  assert (Henter : forall kids, wu e [LG e (thd t0) (tk t0)] [] s (fire_all kids (add_log (LG e (thd t0) (tk t0)) s))).
+  { intros kids. change [LG e (thd t0) (tk t0)] with ([] ++ hpart [LG e (thd t0) (tk t0)]).
+    change (@nil task) with (@nil task ++ []).
+    eapply wu_trans; [exact He | apply wu_add_log | apply wu_wext; [exact He | apply wext_fire_all]]. }
+  destruct (nth_error ys (tk t0)) as [[kids y]|].
+  - pose proof (Henter kids) as H1.
+    set (s2 := fire_all kids (add_log (LG e (thd t0) (tk t0)) s)) in *.
+    assert (He2 : e < next s2) by (pose proof (wu_next _ _ _ _ _ H1); lia).
+    assert (H2 : wu e [LG e (thd t0) (tk t0)] [] s (if is_none y then s2 else set_value e y s2)).
+    { destruct (is_none y); auto. change [LG e (thd t0) (tk t0)] with ([] ++ [LG e (thd t0) (tk t0)]).
+      change (@nil task) with (@nil task ++ []).
+      eapply wu_trans; [exact He | exact H1 | apply wu_wext; [exact He2 | apply wext_set_value]]. }
+    set (s3 := if is_none y then s2 else set_value e y s2) in *.
+    split.
+    + destruct (wu_fr _ _ _ _ _ H2) as [a b c d f g]. split; simpl; auto.
+    + left. simpl. rewrite (wu_tasks _ _ _ _ _ H2). now rewrite app_nil_r.
+  - pose proof (Henter lk) as H1.
+    set (s2 := fire_all lk (add_log (LG e (thd t0) (tk t0)) s)) in *.
+    assert (He2 : e < next s2) by (pose proof (wu_next _ _ _ _ _ H1); lia).
+    assert (Hend : wfr e [] s2 (if gr then task_raise p e s2 else task_stop p e s2) /\
+                   tasks (if gr then task_raise p e s2 else task_stop p e s2) = remove_nth p (tasks s2)).
+    { destruct gr; [apply wtask_raise | apply wtask_stop]; auto. }
+    destruct Hend as (H2 & Ht2). split.
+    + change [LG e (thd t0) (tk t0)] with ([] ++ [LG e (thd t0) (tk t0)]).
+      eapply wfr_trans; [exact He | apply (wu_fr _ _ _ _ _ H1) | destruct gr; exact H2].
+    + right. destruct gr; rewrite Ht2, (wu_tasks _ _ _ _ _ H1); now rewrite app_nil_r.
+Qed.
+
+Definition key (t : task) : nat * nat := (tev t, thd t).
+
+
+Record SInv (s : st) : Prop := {
+  s_q1 : forall d, In d (queue s) -> d < next s /\ phase s d = PQueued;
+  s_q2 : NoDup (queue s);
+  s_t1 : forall t, In t (tasks s) -> tev t < next s /\ phase s (tev t) <> PQueued;
+  s_t2 : NoDup (map key (tasks s));
+  s_l1 : forall x d, In x (log s) -> hentry x d -> d < next s /\ phase s d <> PQueued;
+  s_l3 : forall t k, In t (tasks s) -> In (LG (tev t) (thd t) k) (log s) -> k < tk t;
+  s_o1 : NoDup (hpart (log s));
+  s_o2 : hordered (hpart (log s))
+}.
+
+Lemma nodup_app' : forall A (a b : list A),
+  NoDup a -> NoDup b -> (forall x, In x a -> ~ In x b) -> NoDup (a ++ b).
+Proof.
+  induction a as [|x a IH]; intros b Ha Hb H; simpl; auto.
+  inversion Ha; subst. constructor.
+  - intros Hi. apply in_app_or in Hi. destruct Hi; [contradiction | apply (H x); simpl; auto].
+  - apply IH; auto. intros y Hy. apply H. simpl; auto.
+Qed.
+
+Lemma in_hpart : forall x l, In x (hpart l) <-> In x l /\ is_h x = true.
+Proof. intros. unfold hpart. apply filter_In. Qed.
+
+Lemma is_h_hentry : forall x, is_h x = true -> exists d, hentry x d.
+Proof. intros [] H; simpl in *; try discriminate; eauto. Qed.
+Lemma hentry_is_h : forall x d, hentry x d -> is_h x = true.
+Proof. intros [] d H; simpl in *; auto; contradiction. Qed.
+
+Lemma in_replace_nth_ix : forall (x v : task) p ts,
+  In x (replace_nth p v ts) -> x = v \/ exists q, q <> p /\ nth_error ts q = Some x.
+Proof.
+  intros x v p ts. revert p. induction ts as [|t ts IH]; intros p H; destruct p; simpl in *; try contradiction.
+  - destruct H as [H|H]; auto. right. apply In_nth_error in H. destruct H as (q & Hq). exists (S q). split; auto.
+  - destruct H as [H|H].
+    + right. exists 0. split; auto. now subst.
+    + destruct (IH p H) as [->|(q & Hq & Hn)]; auto. right. exists (S q). split; auto.
+Qed.
+Lemma in_remove_nth_ix : forall (x : task) p ts,
+  In x (remove_nth p ts) -> exists q, q <> p /\ nth_error ts q = Some x.
+Proof.
+  intros x p ts. revert p. induction ts as [|t ts IH]; intros p H; destruct p; simpl in *; try contradiction.
+  - apply In_nth_error in H. destruct H as (q & Hq). exists (S q). split; auto.
+  - destruct H as [H|H].
+    + exists 0. split; auto. now subst.
+    + destruct (IH p H) as (q & Hq & Hn). exists (S q). split; auto.
+Qed.
+
+Lemma key_unique : forall ts p q a b,
+  NoDup (map key ts) -> nth_error ts p = Some a -> nth_error ts q = Some b -> key a = key b -> p = q.
+Proof.
+  intros ts p q a b Hnd Hp Hq Hk.
+  assert (Hlen : p < length (map key ts)).
+  { rewrite map_length. apply nth_error_Some. congruence. }
+  apply (proj1 (NoDup_nth_error (map key ts)) Hnd p q Hlen).
+  rewrite (map_nth_error key _ _ Hp), (map_nth_error key _ _ Hq). congruence.
+Qed.
+
+Lemma map_key_replace : forall p v t0 ts,
+  nth_error ts p = Some t0 -> key v = key t0 -> map key (replace_nth p v ts) = map key ts.
+Proof.
+  intros p v t0 ts. revert p. induction ts as [|t ts IH]; intros p Hn Hk; destruct p; simpl in *; try discriminate; auto.
+  - inversion Hn; subst. now rewrite Hk.
+  - now rewrite (IH p).
+Qed.
+Lemma nodup_map_remove : forall p ts, NoDup (map key ts) -> NoDup (map key (remove_nth p ts)).
+Proof.
+  intros p ts. revert p. induction ts as [|t ts IH]; intros p H; destruct p; simpl in *; auto.
+  - now inversion H.
+  - inversion H; subst. constructor; auto.
+    intros Hin. apply H2. apply in_map_iff in Hin. destruct Hin as (x & Hx & Hin).
+    apply in_map_iff. exists x. split; auto.
+    destruct (in_remove_nth_ix _ _ _ Hin) as (q & _ & Hq). eapply nth_error_In; eauto.
+Qed.
+
+Lemma sinv_start : forall roots, SInv (start roots).
+Proof.
+  intros roots. unfold start.
+  destruct (ext_fire_all roots init) as (l & [x1 x2 x3 x4 x5 x6] & Hl).
+  set (s := fire_all roots init) in *. simpl in x1, x3, x4, x5, x6.
+  rewrite Nat.sub_0_r in x5. rewrite app_nil_r in x6.
+  assert (Hh : hpart (log s) = []) by (rewrite x6; apply hpart_nonh; eapply LF_nonh; eauto).
+  split.
+  - intros d Hd. rewrite x5 in Hd. apply in_seq in Hd. split; [lia|]. apply x3. lia.
+  - rewrite x5. apply seq_NoDup.
+  - intros t Hin. rewrite x4 in Hin. contradiction.
+  - rewrite x4. constructor.
+  - intros x d Hin Hh'. exfalso. assert (In x (hpart (log s))) by (apply in_hpart; split; auto; eapply hentry_is_h; eauto).
+    rewrite Hh in H. contradiction.
+  - intros t k Hin. rewrite x4 in Hin. contradiction.
+  - rewrite Hh. constructor.
+  - rewrite Hh. intros h1 h2 e i k H. destruct h1; discriminate.
+Qed.
+
+Lemma sinv_step : forall lb s, SInv s -> SInv (step lb s).
+Proof.
+  intros lb s HI. pose proof HI as [q1 q2 t1 t2 l1 l3 o1 o2]. destruct lb as [|p]; simpl.
+  - (* dispatch *)
+    destruct (queue s) as [|e q] eqn:Hq; auto.
+    assert (He : e < next s /\ phase s e = PQueued) by (apply q1; simpl; auto).
+    destruct He as (He & Hpe). inversion q2 as [|? ? Hnin Hnd]; subst.
+    set (s0 := set_queue q s).
+    destruct (wdispatch e s0 He) as (h & tn & Hfr & Htk & Hpe' & p1 & p2 & p3 & p4).
+    set (s' := dispatch e s0) in *.
+    destruct Hfr as [n o we w qq (l & Hl & Hh)]. simpl in n, o, we, w, qq, Hl.
+    assert (Hnoh : forall x, In x (log s) -> ~ hentry x e).
+    { intros x Hin Hx. destruct (l1 x e Hin Hx) as (_ & Hp). congruence. }
+    assert (Hlh : forall x, In x l -> is_h x = true -> exists j, x = LH e j).
+    { intros x Hin Hx. assert (Hi : In x h) by (rewrite <- Hh; apply in_hpart; auto).
+      rewrite Forall_forall in p1. destruct (p1 x Hi) as (j & -> & _). eauto. }
+    assert (Htold : forall t, In t (tasks s) -> tev t <> e).
+    { intros t Hin Heq. destruct (t1 t Hin) as (_ & Hp). congruence. }
+    split.
+    + intros d Hd. rewrite qq in Hd. apply in_app_or in Hd. destruct Hd as [Hd|Hd].
+      * destruct (q1 d ltac:(simpl; auto)) as (Hlt & Hp). assert (d <> e) by (intros ->; contradiction).
+        split; [lia|]. rewrite o; auto.
+      * apply in_seq in Hd. split; [lia|]. apply w. lia.
+    + rewrite qq. apply nodup_app'; auto; [apply seq_NoDup|].
+      intros x Hx Hs. apply in_seq in Hs. destruct (q1 x ltac:(simpl; auto)). lia.
+    + intros t Hin. rewrite Htk in Hin. apply in_app_or in Hin. destruct Hin as [Hin|Hin].
+      * destruct (t1 t Hin) as (Hlt & Hp). split; [lia|]. rewrite o; auto.
+      * rewrite Forall_forall in p3. destruct (p3 t Hin) as (-> & _). split; [lia | exact Hpe'].
+    + rewrite Htk, map_app. apply nodup_app'; auto.
+      * clear - p3 p4. induction tn as [|t tn IH]; simpl; [constructor|].
+        inversion p3; inversion p4; subst. constructor; auto.
+        intros Hin. apply in_map_iff in Hin. destruct Hin as (t' & Hk & Hin).
+        apply H5. apply in_map_iff. exists t'. split; auto. unfold key in Hk. congruence.
+      * intros x Hx Hx'. apply in_map_iff in Hx. destruct Hx as (t & <- & Hin).
+        apply in_map_iff in Hx'. destruct Hx' as (t' & Hk & Hin').
+        rewrite Forall_forall in p3. destruct (p3 t' Hin') as (Ht' & _).
+        apply (Htold t Hin). unfold key in Hk. congruence.
+    + intros x d Hin Hx. rewrite Hl in Hin. apply in_app_or in Hin. destruct Hin as [Hin|Hin].
+      * destruct (Hlh x Hin (hentry_is_h _ _ Hx)) as (j & ->). simpl in Hx. subst d. split; [lia | exact Hpe'].
+      * destruct (l1 x d Hin Hx) as (Hlt & Hp). split; [lia|].
+        assert (d <> e) by (intros ->; congruence). rewrite o; auto.
+    + intros t k Hin Hlg. rewrite Hl in Hlg. apply in_app_or in Hlg. destruct Hlg as [Hlg|Hlg].
+      * destruct (Hlh _ Hlg eq_refl) as (j & Hj). discriminate.
+      * rewrite Htk in Hin. apply in_app_or in Hin. destruct Hin as [Hin|Hin]; [eapply l3; eauto|].
+        exfalso. rewrite Forall_forall in p3. destruct (p3 t Hin) as (Ht & _).
+        apply (Hnoh _ Hlg). simpl. exact Ht.
+    + rewrite Hl, hpart_app, Hh. apply nodup_app'; auto.
+      intros x Hx Hx'. apply in_hpart in Hx'. destruct Hx' as (Hin & _).
+      rewrite Forall_forall in p1. destruct (p1 x Hx) as (j & -> & _). apply (Hnoh _ Hin). reflexivity.
+    + rewrite Hl, hpart_app, Hh. intros h1 h2 e' i k Heq k' Hin.
+      assert (Hnot : ~ In (LG e' i k) h).
+      { intros Hi. rewrite Forall_forall in p1. destruct (p1 _ Hi) as (j & Hj & _). discriminate. }
+      destruct (in_split_app _ _ _ _ _ Heq Hnot) as (h1' & -> & Heq'). eapply o2; eauto.
+  - (* task step *)
+    destruct (nth_error (tasks s) p) as [t0|] eqn:Hn.
+    2:{ unfold step_task. now rewrite Hn. }
+    destruct (t1 t0 (nth_error_In _ _ Hn)) as (He & Hp0).
+    destruct (wstep_task p t0 s Hn He) as [-> | (Hfr & Htk)]; auto.
+    set (s' := step_task p s) in *. set (e := tev t0) in *.
+    destruct Hfr as [n o we w qq (l & Hl & Hh)].
+    assert (Hlg : forall x, In x l -> is_h x = true -> x = LG e (thd t0) (tk t0)).
+    { intros x Hin Hx. assert (Hi : In x (hpart l)) by (apply in_hpart; auto). rewrite Hh in Hi.
+      destruct Hi as [<-|[]]. reflexivity. }
+    assert (Hfresh : ~ In (LG e (thd t0) (tk t0)) (log s)).
+    { intros Hin. pose proof (l3 t0 _ (nth_error_In _ _ Hn) Hin). lia. }
+    assert (Hpe : phase s' e <> PQueued) by auto.
+    assert (Hneq : ~ In e (queue s)) by (intros Hin; destruct (q1 _ Hin); congruence).
+    set (t0' := {| tev := e; thd := thd t0; tk := S (tk t0) |}) in *.
+    (* which tasks remain *)
+    assert (Hrem : forall t, In t (tasks s') ->
+              t = t0' \/ (exists q, q <> p /\ nth_error (tasks s) q = Some t)).
+    { intros t Hin. destruct Htk as [Htk|Htk]; rewrite Htk in Hin.
+      - apply in_replace_nth_ix in Hin. exact Hin.
+      - right. apply in_remove_nth_ix in Hin. exact Hin. }
+    assert (Hother : forall t q, q <> p -> nth_error (tasks s) q = Some t -> key t <> key t0).
+    { intros t q Hq Hnq Hk. apply Hq. eapply key_unique; eauto. }
+    split.
+    + intros d Hd. rewrite qq in Hd. apply in_app_or in Hd. destruct Hd as [Hd|Hd].
+      * destruct (q1 d Hd) as (Hlt & Hp). assert (d <> e) by (intros ->; contradiction).
+        split; [lia|]. rewrite o; auto.
+      * apply in_seq in Hd. split; [lia|]. apply w. lia.
+    + rewrite qq. apply nodup_app'; auto; [apply seq_NoDup|].
+      intros x Hx Hs. apply in_seq in Hs. destruct (q1 x Hx). lia.
+    + intros t Hin. destruct (Hrem t Hin) as [->|(q & _ & Hnq)].
+      * simpl. split; [lia | exact Hpe].
+      * destruct (t1 t (nth_error_In _ _ Hnq)) as (Hlt & Hp). split; [lia|].
+        destruct (Nat.eq_dec (tev t) e) as [->|Hne]; auto. rewrite o; auto.
+    + destruct Htk as [Htk|Htk]; rewrite Htk.
+      * rewrite (map_key_replace p t0' t0); auto.
+      * now apply nodup_map_remove.
+    + intros x d Hin Hx. rewrite Hl in Hin. apply in_app_or in Hin. destruct Hin as [Hin|Hin].
+      * rewrite (Hlg x Hin (hentry_is_h _ _ Hx)) in Hx. simpl in Hx. subst d. split; [lia | exact Hpe].
+      * destruct (l1 x d Hin Hx) as (Hlt & Hp). split; [lia|].
+        destruct (Nat.eq_dec d e) as [->|Hne]; auto. rewrite o; auto.
+    + intros t k Hin Hlgk. rewrite Hl in Hlgk. apply in_app_or in Hlgk.
+      destruct (Hrem t Hin) as [->|(q & Hq & Hnq)].
+      * simpl. destruct Hlgk as [Hi|Hi].
+        -- pose proof (Hlg _ Hi eq_refl) as Heq. simpl in Heq. inversion Heq. lia.
+        -- pose proof (l3 t0 k (nth_error_In _ _ Hn) Hi). lia.
+      * destruct Hlgk as [Hi|Hi].
+        -- exfalso. pose proof (Hlg _ Hi eq_refl) as Heq. inversion Heq.
+           apply (Hother t q Hq Hnq). unfold key. fold e. congruence.
+        -- eapply l3; eauto. eapply nth_error_In; eauto.
+    + rewrite Hl, hpart_app, Hh. simpl. constructor; auto.
+      intros Hin. apply in_hpart in Hin. destruct Hin as (Hin & _). contradiction.
+    + rewrite Hl, hpart_app, Hh. simpl. intros h1 h2 e' i k Heq k' Hin.
+      destruct h1 as [|x h1]; simpl in Heq; inversion Heq; subst.
+      * apply in_hpart in Hin. destruct Hin as (Hin & _).
+        pose proof (l3 t0 k' (nth_error_In _ _ Hn) Hin). lia.
+      * eapply o2; eauto.
+Qed.
+
+Lemma sinv_exec : forall ls s, SInv s -> SInv (exec ls s).
+Proof. induction ls as [|lb ls IH]; intros s H; simpl; auto. apply IH. now apply sinv_step. Qed.
+
+(* ALL programs: in every reachable state every plain handler has at most one invocation entry, every
+   segment of every generator handler at most one entry, and older segment entries of a handler have
+   smaller numbers *)
+Theorem each_handler_once : forall s, reachable s ->
+  NoDup (hpart (log s)) /\ hordered (hpart (log s)).
+Proof.
+  intros s (roots & ls & ->). pose proof (sinv_exec ls _ (sinv_start roots)) as H.
+  split; [apply (s_o1 _ H) | apply (s_o2 _ H)].
+Qed.
+
+(* ------------------------------------------------------------------ ALL programs (repaired setValue): the errors flag
+   is sticky, so a failure is never followed by <name>_success *)
+
+(* scripts of existing events are untouched and errors flags only ever go from False to True *)
+Record emono (s s' : st) : Prop := {
+  em_next : next s <= next s';
+  em_spec : forall d, d < next s -> spec s' d = spec s d;
+  em_err : forall d, d < next s -> verrors (val s d) = true -> verrors (val s' d) = true
+}.
+
+Lemma emono_refl : forall s, emono s s.
+Proof. intros. split; auto. Qed.
+Lemma emono_trans : forall s s1 s2, emono s s1 -> emono s1 s2 -> emono s s2.
+Proof.
+  intros s s1 s2 [n1 a1 b1] [n2 a2 b2]. split.
+  - lia.
+  - intros d Hd. rewrite a2 by lia. auto.
+  - intros d Hd H. apply b2; [lia|]. auto.
+Qed.
+Lemma emono_ext : forall l s s', ext l s s' -> emono s s'.
+Proof.
+  intros l s s' Hx. split.
+  - apply (x_next _ _ _ Hx).
+  - intros d Hd. eapply ext_spec; eauto.
+  - intros d Hd H. now rewrite (ext_val _ _ _ d Hx Hd).
+Qed.
+Lemma emono_same : forall s s', next s' = next s -> spec s' = spec s -> val s' = val s -> emono s s'.
+Proof. intros s s' Hn Hs Hv. split; [lia | intros; now rewrite Hs | intros; now rewrite Hv]. Qed.
+Lemma emono_set_val : forall d v s, (verrors (val s d) = true -> verrors v = true) -> emono s (set_val d v s).
+Proof.
+  intros d v s H. split; simpl; auto. intros d' Hd' H'. unfold upd. destruct (Nat.eqb d' d) eqn:E; auto.
+  apply Nat.eqb_eq in E. subst. auto.
+Qed.
+
+Lemma emono_inform : forall f e s, emono s (inform f e s).
+Proof. intros. destruct (ext_inform f e s) as (l & Hx & _). eapply emono_ext; eauto. Qed.
+
+Lemma emono_propagate : forall f o x s, emono s (propagate f o x s).
+Proof.
+  induction f as [|f IH]; intros o x s; unfold propagate; fold propagate; [apply emono_refl|].
+  destruct (vpar s o) as [p|]; [|apply emono_refl].
+  eapply emono_trans; [|apply IH].
+  set (s1 := set_val p (with_flags (val s p) (vresult (val s o)) (verrors (val s p) || verrors (val s o))) s).
+  assert (H1 : emono s s1) by (apply emono_set_val; simpl; intros ->; reflexivity).
+  destruct x; try exact H1.
+  - eapply emono_trans; [exact H1|]. eapply emono_trans; [|apply emono_inform]. apply emono_set_val. simpl. auto.
+  - eapply emono_trans; [exact H1|]. eapply emono_trans; [|apply emono_inform]. apply emono_set_val. simpl. auto.
+  - eapply emono_trans; [exact H1|]. eapply emono_trans; [|apply emono_inform]. apply emono_set_val. simpl. auto.
+  - eapply emono_trans; [exact H1|]. apply emono_set_val. simpl. intros ->. reflexivity.
+Qed.
+
+Lemma emono_set_value : forall e x s, emono s (set_value e x s).
+Proof.
+  intros e x s. unfold set_value.
+  assert (Hl : emono s (set_value_local e x s)).
+  { unfold set_value_local. destruct (is_none x); [apply emono_set_val; simpl; auto|].
+    eapply emono_trans; [|apply emono_inform]. apply emono_set_val. simpl. auto. }
+  destruct x; try (eapply emono_trans; [exact Hl | apply emono_propagate]).
+  eapply emono_trans; [|apply emono_propagate].
+  eapply emono_trans; [apply (emono_same s (set_par d e s)); reflexivity|].
+  apply emono_set_val. simpl. intros ->. reflexivity.
+Qed.
+
+Lemma emono_fire_all : forall kids s, emono s (fire_all kids s).
+Proof. intros. destruct (ext_fire_all kids s) as (l & Hx & _). eapply emono_ext; eauto. Qed.
+Lemma emono_raise_feedback : forall e s, emono s (raise_feedback e s).
+Proof. intros. eapply emono_ext. apply ext_raise_feedback. Qed.
+
+(* [nu e s s']: handler activity on e that keeps "errors is set if a logged handler of e raised" *)
+Definition nu (e : nat) (s s' : st) : Prop :=
+  emono s s' /\ lext s s' /\
+  exists l, log s' = l ++ log s /\ (forall x, In x l -> is_h x = true -> hentry x e) /\
+            (0 < nraised (spec s) e l -> verrors (val s' e) = true).
+
+Lemma nraised_nonh : forall sp e l, Forall nonh l -> nraised sp e l = 0.
+Proof. intros. apply (nonh_list sp e l H). Qed.
+
+Lemma nu_quiet : forall e s s', emono s s' -> lext s s' -> (exists l, log s' = l ++ log s /\ Forall nonh l) -> nu e s s'.
+Proof.
+  intros e s s' Hm Hx (l & Hl & Hn). split; [|split]; auto. exists l. split; [|split]; auto.
+  - intros x Hin Hh. rewrite Forall_forall in Hn. specialize (Hn x Hin). destruct x; simpl in *; try discriminate; contradiction.
+  - rewrite (nraised_nonh _ _ _ Hn). lia.
+Qed.
+
+Lemma nu_trans : forall e s s1 s2, e < next s -> nu e s s1 -> nu e s1 s2 -> nu e s s2.
+Proof.
+  intros e s s1 s2 He (m1 & x1 & l1 & g1 & h1 & r1) (m2 & x2 & l2 & g2 & h2 & r2).
+  split; [eapply emono_trans; eauto|]. split; [eapply lext_trans; eauto|].
+  exists (l2 ++ l1). split; [rewrite g2, g1; now rewrite app_assoc|]. split.
+  - intros x Hin Hh. apply in_app_or in Hin. destruct Hin; auto.
+  - rewrite nraised_app. intros Hpos.
+    assert (Hsp : spec s1 e = spec s e) by (apply (em_spec _ _ m1); auto).
+    destruct (nraised (spec s) e l2) eqn:E2.
+    + apply (em_err _ _ m2); [pose proof (em_next _ _ m1); lia|]. apply r1. lia.
+    + apply r2. rewrite (nraised_sp (spec s) (spec s1)); auto. lia.
+Qed.
+
+(* quiet operations: errors monotone, no success fired, no handler activity logged *)
+Definition qlog (s s' : st) : Prop := exists l, log s' = l ++ log s /\ Forall nonh l.
+Lemma qlog_trans : forall s s1 s2, qlog s s1 -> qlog s1 s2 -> qlog s s2.
+Proof.
+  intros s s1 s2 (l1 & a1 & b1) (l2 & a2 & b2). exists (l2 ++ l1). split.
+  - rewrite a2, a1. now rewrite app_assoc.
+  - apply Forall_app; auto.
+Qed.
+Lemma qlog_wext : forall s s', wext s s' -> qlog s s'.
+Proof. intros s s' H. apply (y_log _ _ H). Qed.
+
+Definition q3 (s s' : st) : Prop := emono s s' /\ lext s s' /\ qlog s s'.
+Lemma q3_trans : forall s s1 s2, q3 s s1 -> q3 s1 s2 -> q3 s s2.
+Proof.
+  intros s s1 s2 (a1 & b1 & c1) (a2 & b2 & c2).
+  split; [eapply emono_trans; eauto | split; [eapply lext_trans; eauto | eapply qlog_trans; eauto]].
+Qed.
+Lemma q3_same : forall s s', next s' = next s -> spec s' = spec s -> val s' = val s -> log s' = log s -> q3 s s'.
+Proof.
+  intros s s' a b c d. split; [now apply emono_same | split; [now apply lext_same | exists []; split; auto]].
+Qed.
+Lemma q3_refl : forall s, q3 s s.
+Proof. intros. apply q3_same; reflexivity. Qed.
+Lemma q3_fire_all : forall kids s, q3 s (fire_all kids s).
+Proof. intros. split; [apply emono_fire_all | split; [apply lext_fire_all | apply qlog_wext, wext_fire_all]]. Qed.
+Lemma q3_set_value : forall e x s, q3 s (set_value e x s).
+Proof. intros. split; [apply emono_set_value | split; [apply lext_set_value | apply qlog_wext, wext_set_value]]. Qed.
+Lemma q3_raise_feedback : forall e s, q3 s (raise_feedback e s).
+Proof. intros. split; [apply emono_raise_feedback | split; [apply lext_raise_feedback | apply qlog_wext, wext_raise_feedback]]. Qed.
+Lemma q3_inform : forall f e s, q3 s (inform f e s).
+Proof. intros. split; [apply emono_inform | split; [apply lext_inform | apply qlog_wext, wext_inform]]. Qed.
+Lemma q3_fire_user : forall sp s, q3 s (fire_user sp s).
+Proof.
+  intros. pose proof (ext_fire_user sp s) as Hx.
+  split; [eapply emono_ext; eauto | split; [eapply lext_ext; eauto; repeat constructor |]].
+  exists [LF (next s)]. split; [apply (x_log _ _ _ Hx) | repeat constructor].
+Qed.
+Lemma q3_set_val : forall d v s, (verrors (val s d) = true -> verrors v = true) -> q3 s (set_val d v s).
+Proof.
+  intros. split; [now apply emono_set_val | split; [apply lext_same; reflexivity | exists []; split; auto]].
+Qed.
+Lemma q3_log_all : forall xs s, Forall nonh xs -> Forall nosucc xs -> q3 s (log_all xs s).
+Proof.
+  intros xs s H1 H2. split; [|split; [now apply lext_log_all | now apply qlog_wext, wlog_all]].
+  clear H1 H2. revert s. induction xs as [|x r IH]; intros s; simpl; [apply emono_refl|].
+  eapply emono_trans; [|apply IH]. apply emono_same; reflexivity.
+Qed.
+
+Lemma q3_next : forall s s', q3 s s' -> next s <= next s'.
+Proof. intros s s' (a & _). apply (em_next _ _ a). Qed.
+
+(* a unit: the handler-activity entry x of e is logged first, quiet operations follow *)
+Lemma nu_unit : forall e x s s', e < next s -> hentry x e ->
+  q3 (add_log x s) s' ->
+  (raises (spec s) e x = true -> verrors (val s' e) = true) ->
+  nu e s s'.
+Proof.
+  intros e x s s' He Hx (Hm & Hl & (la & Hla & Hnh)) Hr. simpl in Hla.
+  split; [|split].
+  - eapply emono_trans; [|exact Hm]. apply emono_same; reflexivity.
+  - eapply lext_trans; [|exact Hl]. exists [x]. split; auto. constructor; auto.
+    destruct x; simpl in *; auto; contradiction.
+  - exists (la ++ [x]). split; [rewrite Hla; now rewrite <- app_assoc|]. split.
+    + intros y Hin Hh. apply in_app_or in Hin. destruct Hin as [Hin|[<-|[]]]; auto.
+      rewrite Forall_forall in Hnh. specialize (Hnh y Hin). destruct y; simpl in *; try discriminate; contradiction.
+    + rewrite nraised_app, (nraised_nonh _ _ _ Hnh). unfold nraised. simpl.
+      destruct (raises (spec s) e x) eqn:E; simpl; [auto | lia].
+Qed.
+
+Lemma nu_run_handler : forall e i h err s,
+  e < next s -> nth_error (ev_hs (spec s e)) i = Some h -> nu e s (fst (run_handler e i h err s)).
+Proof.
+  intros e i h err s He Hnth. destruct h as [kids r | ys lk gr]; simpl.
+  - assert (Hrs : raises (spec s) e (LH e i) = match unstop r with RRaise => true | _ => false end).
+    { simpl. now rewrite Nat.eqb_refl, Hnth. }
+    set (s0 := add_log (LH e i) s). set (s1 := fire_all kids s0).
+    assert (H1 : q3 s0 s1) by apply q3_fire_all.
+    assert (He1 : e < next s1) by (pose proof (q3_next _ _ H1); simpl in *; lia).
+    destruct (unstop r) as [v| |sp|r'] eqn:Hu; simpl.
+    + apply (nu_unit e (LH e i)); auto; [reflexivity | | rewrite Hrs; discriminate].
+      destruct (is_none v); auto. eapply q3_trans; [exact H1 | apply q3_set_value].
+    + apply (nu_unit e (LH e i)); auto; [reflexivity | |].
+      * eapply q3_trans; [exact H1|]. eapply q3_trans; [|apply q3_set_value].
+        eapply q3_trans; [|apply q3_raise_feedback]. apply q3_set_val. auto.
+      * intros _.
+        apply (em_err _ _ (emono_set_value e PErr (raise_feedback e (set_errors e s1)))).
+        { pose proof (em_next _ _ (emono_raise_feedback e (set_errors e s1))). simpl in *. lia. }
+        apply (em_err _ _ (emono_raise_feedback e (set_errors e s1))); [exact He1|].
+        rewrite val_set_errors. reflexivity.
+    + apply (nu_unit e (LH e i)); auto; [reflexivity | | rewrite Hrs; discriminate].
+      eapply q3_trans; [exact H1|]. eapply q3_trans; [apply q3_fire_user | apply q3_set_value].
+    + apply (nu_unit e (LH e i)); auto; [reflexivity | rewrite Hrs; discriminate].
+  - apply nu_quiet.
+    + unfold add_task, set_promise. split; simpl; auto.
+      intros d Hd H. unfold upd. destruct (Nat.eqb d e) eqn:E; auto. apply Nat.eqb_eq in E. subst. exact H.
+    + apply lext_same. reflexivity.
+    + exists []. split; auto.
+Qed.
+
+Lemma nu_refl : forall e s, nu e s s.
+Proof. intros. apply nu_quiet; [apply emono_refl | apply lext_refl | exists []; split; auto]. Qed.
+
+Lemma nu_next : forall e s s', nu e s s' -> next s <= next s'.
+Proof. intros e s s' (a & _). apply (em_next _ _ a). Qed.
+
+Lemma nu_run_handlers : forall e hs i err s pre,
+  e < next s -> ev_hs (spec s e) = pre ++ hs -> length pre = i ->
+  nu e s (fst (run_handlers e i hs err s)).
+Proof.
+  intros e hs. induction hs as [|h r IH]; intros i err s pre He Hpre Hlen; simpl; [apply nu_refl|].
+  assert (Hnth : nth_error (ev_hs (spec s e)) i = Some h).
+  { rewrite Hpre, nth_error_app2 by lia. now rewrite <- Hlen, Nat.sub_diag. }
+  pose proof (nu_run_handler e i h err s He Hnth) as H1.
+  destruct (run_handler e i h err s) as [s1 err1]. simpl in H1.
+  destruct (stops h); simpl; auto.
+  assert (He1 : e < next s1) by (pose proof (nu_next _ _ _ H1); lia).
+  eapply nu_trans; [exact He | exact H1|].
+  apply (IH (S i) err1 s1 (pre ++ [h])); auto.
+  - destruct H1 as (Hm & _). rewrite (em_spec _ _ Hm e He), Hpre, <- app_assoc. reflexivity.
+  - rewrite app_length. simpl. lia.
+Qed.
+
+Lemma nu_q3 : forall e s s', q3 s s' -> nu e s s'.
+Proof. intros e s s' (a & b & c). now apply nu_quiet. Qed.
+
+(* log, Values, scripts and event count of b are those of a *)
+Definition same_lvs (a b : st) : Prop := log b = log a /\ val b = val a /\ spec b = spec a /\ next b = next a.
+
+(* every step = handler activity on one event e (nu), optionally followed by _eventDone(e) *)
+Lemma step_nu : forall lb s, SInv s ->
+  step lb s = s \/
+  exists e s2, e < next s /\ nu e s s2 /\
+    (same_lvs s2 (step lb s) \/ exists err, same_lvs (event_done e err s2) (step lb s)).
+Proof.
+  intros lb s HI. destruct lb as [|p]; simpl.
+  - destruct (queue s) as [|e q] eqn:Hq; auto. right.
+    assert (He : e < next s) by (apply (s_q1 _ HI); rewrite Hq; simpl; auto).
+    set (s0 := set_queue q s). exists e.
+    unfold dispatch. change (kind s0 e) with (kind s e). destruct (kind s e) as [|k x a o].
+    + set (sa := set_phase e PActive s0).
+      pose proof (nu_run_handlers e (ev_hs (spec sa e)) 0 false sa [] He eq_refl eq_refl) as H1.
+      destruct (run_handlers e 0 (ev_hs (spec sa e)) false sa) as [s1 err]. simpl in H1.
+      set (xs := if existsb stops (ev_hs (spec sa e)) then [] else map (LDU e) (observers true (ev_both (spec s1 e)))).
+      assert (Hxs : Forall nonh xs /\ Forall nosucc xs).
+      { unfold xs, observers. destruct (existsb stops (ev_hs (spec sa e))); [split; constructor|].
+        destruct (ev_both (spec s1 e)); simpl; split; repeat constructor. }
+      exists (log_all xs s1). split; [exact He|]. split.
+      * eapply nu_trans; [exact He | apply nu_q3; apply (q3_same s sa); reflexivity|].
+        eapply nu_trans; [exact He | exact H1 | apply nu_q3; apply q3_log_all; tauto].
+      * right. exists err. repeat split.
+    + set (xs := map (LDD k x) (observers a o)).
+      assert (Hxs : Forall nonh xs /\ Forall nosucc xs).
+      { unfold xs, observers. destruct a, o; simpl; split; repeat constructor. }
+      exists (log_all xs s0). split; [exact He|]. split.
+      * eapply nu_trans; [exact He | apply nu_q3; apply (q3_same s s0); reflexivity|].
+        apply nu_q3. apply q3_log_all; tauto.
+      * left. repeat split.
+  - unfold step_task. destruct (nth_error (tasks s) p) as [t0|] eqn:Hn; auto.
+    destruct (s_t1 _ HI t0 (nth_error_In _ _ Hn)) as (He & _). set (e := tev t0) in *.
+    destruct (nth_error (ev_hs (spec s e)) (thd t0)) as [[kids r | ys lk gr]|] eqn:Hh; auto. right. exists e.
+    set (x := LG e (thd t0) (tk t0)).
+    destruct (nth_error ys (tk t0)) as [[kids y]|] eqn:Hy.
+    + assert (Hr : raises (spec s) e x = false) by (simpl; now rewrite Nat.eqb_refl, Hh, Hy).
+      set (s1 := fire_all kids (add_log x s)).
+      exists (if is_none y then s1 else set_value e y s1). split; [exact He|]. split.
+      * apply (nu_unit e x); auto; [reflexivity | | rewrite Hr; discriminate].
+        destruct (is_none y); [apply q3_fire_all|]. eapply q3_trans; [apply q3_fire_all | apply q3_set_value].
+      * left. repeat split.
+    + assert (Hr : raises (spec s) e x = gr) by (simpl; now rewrite Nat.eqb_refl, Hh, Hy).
+      set (s1 := fire_all lk (add_log x s)).
+      assert (H1 : q3 (add_log x s) s1) by apply q3_fire_all.
+      assert (He1 : e < next s1) by (pose proof (q3_next _ _ H1); simpl in *; lia).
+      destruct gr.
+      * unfold task_raise.
+        set (sa := set_tasks (remove_nth p (tasks s1)) s1).
+        set (sb := set_errors e (set_value e PErr sa)).
+        set (sc := raise_feedback e (inform true e sb)).
+        set (sd := set_wait e (pred (waiting sc e)) sc).
+        exists sd. split; [exact He|]. split; [|right; exists true; repeat split].
+        assert (Hab : q3 sa sb).
+        { unfold sb. eapply q3_trans; [apply q3_set_value|]. apply q3_set_val. auto. }
+        assert (Hbc : q3 sb sc).
+        { unfold sc. eapply q3_trans; [apply q3_inform | apply q3_raise_feedback]. }
+        apply (nu_unit e x); auto; [reflexivity | |].
+        -- eapply q3_trans; [exact H1|]. eapply q3_trans; [apply (q3_same s1 sa); reflexivity|].
+           eapply q3_trans; [exact Hab|]. eapply q3_trans; [exact Hbc | apply (q3_same sc sd); reflexivity].
+        -- intros _. change (val sd e) with (val sc e).
+           destruct Hbc as (Hm & _). apply (em_err _ _ Hm).
+           { destruct Hab as (Hm' & _). pose proof (em_next _ _ Hm'). unfold sa in *. simpl in *. lia. }
+           unfold sb. rewrite val_set_errors. reflexivity.
+      * unfold task_stop.
+        set (sa := set_tasks (remove_nth p (tasks s1)) (set_wait e (pred (waiting s1 e)) s1)).
+        assert (Hsa : q3 s1 sa) by (apply q3_same; reflexivity).
+        destruct (Nat.eqb (waiting sa e) 0).
+        -- exists (inform true e sa). split; [exact He|]. split; [|right; exists false; repeat split].
+           apply (nu_unit e x); auto; [reflexivity | | rewrite Hr; discriminate].
+           eapply q3_trans; [exact H1|]. eapply q3_trans; [exact Hsa | apply q3_inform].
+        -- exists sa. split; [exact He|]. split; [|left; repeat split].
+           apply (nu_unit e x); auto; [reflexivity | | rewrite Hr; discriminate].
+           eapply q3_trans; [exact H1 | exact Hsa].
+Qed.
+
+(* errors is set for every event one of whose logged handlers raised *)
+Definition N1 (s : st) : Prop :=
+  forall d, d < next s -> 0 < nraised (spec s) d (log s) -> verrors (val s d) = true.
+(* when <d>_success was fired no handler of d had raised *)
+Definition N2 (s : st) : Prop :=
+  forall d l1 l2, log s = l1 ++ LFD DSucc d :: l2 -> nraised (spec s) d l2 = 0.
+(* handler-activity entries are about existing events *)
+Definition HB (s : st) : Prop := forall x d, In x (log s) -> hentry x d -> d < next s.
+
+Lemma nraised_zero : forall sp d l, (forall x, In x l -> ~ hentry x d) -> nraised sp d l = 0.
+Proof.
+  intros sp d l H. unfold nraised. induction l as [|x l IH]; simpl; auto.
+  assert (Hx : raises sp d x = false).
+  { destruct x; simpl; auto; destruct (Nat.eqb e d) eqn:E; auto; apply Nat.eqb_eq in E;
+      exfalso; apply (H _ (or_introl eq_refl)); simpl; auto. }
+  rewrite Hx. apply IH. intros y Hy. apply H. simpl; auto.
+Qed.
+
+Lemma nraised_sub : forall sp d l1 l2, nraised sp d (l1 ++ l2) = 0 -> nraised sp d l2 = 0.
+Proof. intros sp d l1 l2 H. rewrite nraised_app in H. lia. Qed.
+
+(* the invariants pass from s to s2 along handler activity on e *)
+Lemma nu_inv : forall e s s2, e < next s -> HB s -> N1 s -> N2 s -> nu e s s2 -> HB s2 /\ N1 s2 /\ N2 s2.
+Proof.
+  intros e s s2 He Hb H1 H2 (Hm & (lx & Hlx & Hns) & l & Hl & Hh & Hr).
+  assert (Hll : lx = l) by (eapply app_inv_tail; rewrite <- Hlx, <- Hl; reflexivity). subst lx.
+  assert (Hb2 : HB s2).
+  { intros x d Hin Hx. rewrite Hl in Hin. apply in_app_or in Hin. destruct Hin as [Hin|Hin].
+    - pose proof (Hh x Hin (hentry_is_h _ _ Hx)) as Hxe.
+      assert (d = e) by (destruct x; simpl in *; try contradiction; congruence). subst. pose proof (em_next _ _ Hm). lia.
+    - pose proof (Hb x d Hin Hx). pose proof (em_next _ _ Hm). lia. }
+  assert (Hnr : forall d, d <> e -> forall sp, nraised sp d l = 0).
+  { intros d Hne sp. apply nraised_zero. intros x Hin Hx.
+    pose proof (Hh x Hin (hentry_is_h _ _ Hx)) as Hxe. destruct x; simpl in *; try contradiction; congruence. }
+  split; [exact Hb2|]. split.
+  - intros d Hd Hpos. rewrite Hl, nraised_app in Hpos.
+    destruct (Nat.lt_ge_cases d (next s)) as [Hlt|Hge].
+    + rewrite !(nraised_sp (spec s) (spec s2)) in Hpos by (apply (em_spec _ _ Hm); auto).
+      destruct (Nat.eq_dec d e) as [->|Hne].
+      * destruct (nraised (spec s) e l) eqn:E.
+        -- apply (em_err _ _ Hm); [exact Hlt|]. apply H1; [exact Hlt | simpl in Hpos; exact Hpos].
+        -- apply Hr. lia.
+      * rewrite (Hnr d Hne) in Hpos. apply (em_err _ _ Hm); [exact Hlt|]. apply H1; [exact Hlt | simpl in Hpos; exact Hpos].
+    + exfalso. assert (d <> e) by lia. rewrite (Hnr d H) in Hpos.
+      rewrite (nraised_zero (spec s2) d (log s)) in Hpos; [lia|].
+      intros x Hin Hx. pose proof (Hb x d Hin Hx). lia.
+  - intros d l1 l2 Hlog. rewrite Hl in Hlog.
+    assert (Hnot : ~ In (LFD DSucc d) l).
+    { intros Hin. rewrite Forall_forall in Hns. apply (Hns _ Hin). }
+    destruct (in_split_app _ _ _ _ _ Hlog Hnot) as (l1' & -> & Hlog').
+    pose proof (H2 d l1' l2 Hlog') as Hz.
+    destruct (Nat.lt_ge_cases d (next s)) as [Hlt|Hge].
+    + now rewrite (nraised_sp (spec s) (spec s2)) by (apply (em_spec _ _ Hm); auto).
+    + apply nraised_zero. intros x Hin Hx.
+      assert (Hin' : In x (log s)) by (rewrite Hlog'; apply in_or_app; right; right; auto).
+      pose proof (Hb x d Hin' Hx). lia.
+Qed.
+
+Lemma same_lvs_inv : forall a b, same_lvs a b -> HB a /\ N1 a /\ N2 a -> HB b /\ N1 b /\ N2 b.
+Proof.
+  intros a b (Hl & Hv & Hs & Hn) (A & B & C). unfold HB, N1, N2. rewrite Hl, Hv, Hs, Hn. auto.
+Qed.
+
+Lemma event_done_inv : forall e err s, e < next s ->
+  HB s /\ N1 s /\ N2 s -> HB (event_done e err s) /\ N1 (event_done e err s) /\ N2 (event_done e err s).
+Proof.
+  intros e err s He (A & B & C). unfold event_done.
+  destruct (Nat.eqb (waiting s e) 0); [|auto]. cbv zeta.
+  assert (Hp : same_lvs s (set_phase e PFin s)) by (repeat split).
+  destruct (negb err && negb (verrors (val (set_phase e PFin s) e)) && ev_succ (spec (set_phase e PFin s) e)) eqn:Hc.
+  2:{ apply (same_lvs_inv s); auto. }
+  apply andb_prop in Hc. destruct Hc as (Hc & _). apply andb_prop in Hc. destruct Hc as (_ & Hc).
+  apply negb_true_iff in Hc. simpl in Hc.
+  pose proof (ext_fire_der DSucc e (set_phase e PFin s)) as Hx.
+  set (s' := fire_der DSucc e (set_phase e PFin s)) in *.
+  assert (Hlog : log s' = LFD DSucc e :: log s) by (apply (x_log _ _ _ Hx)).
+  assert (Hn : next s <= next s') by (apply (x_next _ _ _ Hx)).
+  assert (Hsp : forall d, d < next s -> spec s' d = spec s d) by (intros d Hd; apply (ext_spec _ _ _ d Hx Hd)).
+  assert (Hva : forall d, d < next s -> val s' d = val s d) by (intros d Hd; apply (ext_val _ _ _ d Hx Hd)).
+  assert (Hz : forall d, next s <= d -> forall sp l, (forall x, In x l -> In x (log s)) -> nraised sp d l = 0).
+  { intros d Hd sp l Hsub. apply nraised_zero. intros x Hin Hh. pose proof (A x d (Hsub x Hin) Hh). lia. }
+  split; [|split].
+  - intros x d Hin Hh. rewrite Hlog in Hin. destruct Hin as [<-|Hin]; [contradiction|].
+    pose proof (A x d Hin Hh). lia.
+  - intros d Hd Hpos. rewrite Hlog in Hpos. unfold nraised in Hpos. simpl in Hpos. fold (nraised (spec s') d (log s)) in Hpos.
+    destruct (Nat.lt_ge_cases d (next s)) as [Hlt|Hge].
+    + rewrite (nraised_sp (spec s) (spec s')) in Hpos by auto. rewrite Hva by auto. auto.
+    + rewrite (Hz d Hge) in Hpos; [lia | auto].
+  - intros d l1 l2 Hl. rewrite Hlog in Hl. destruct l1 as [|y l1]; simpl in Hl.
+    + (* the success fired now: no handler of e has raised *)
+      injection Hl as Hed Hl2. subst d l2.
+      rewrite (nraised_sp (spec s) (spec s')) by auto.
+      destruct (nraised (spec s) e (log s)) eqn:E; auto. rewrite (B e He) in Hc; [discriminate | lia].
+    + injection Hl as Hy H1.
+      pose proof (C d l1 l2 H1) as Hz'.
+      destruct (Nat.lt_ge_cases d (next s)) as [Hlt|Hge].
+      * now rewrite (nraised_sp (spec s) (spec s')) by auto.
+      * apply (Hz d Hge). intros x Hin. rewrite H1. apply in_or_app. right. right. auto.
+Qed.
+
+Lemma hb_of_sinv : forall s, SInv s -> HB s.
+Proof. intros s H x d Hin Hx. apply (s_l1 _ H x d Hin Hx). Qed.
+
+Lemma n_step : forall lb s, SInv s -> N1 s /\ N2 s -> N1 (step lb s) /\ N2 (step lb s).
+Proof.
+  intros lb s HI (A & B). pose proof (hb_of_sinv s HI) as Hb.
+  destruct (step_nu lb s HI) as [-> | (e & s2 & He & Hnu & Hend)]; auto.
+  pose proof (nu_inv e s s2 He Hb A B Hnu) as H2.
+  destruct Hend as [Hs | (err & Hs)].
+  - apply (same_lvs_inv _ _ Hs) in H2. tauto.
+  - assert (He2 : e < next s2) by (pose proof (nu_next _ _ _ Hnu); lia).
+    pose proof (event_done_inv e err s2 He2 H2) as H3. apply (same_lvs_inv _ _ Hs) in H3. tauto.
+Qed.
+
+Lemma n_start : forall roots, N1 (start roots) /\ N2 (start roots).
+Proof.
+  intros roots. unfold start. destruct (ext_fire_all roots init) as (l & Hx & Hl).
+  pose proof (x_log _ _ _ Hx) as Hlog. simpl in Hlog. rewrite app_nil_r in Hlog.
+  pose proof (LF_nonh _ _ Hl) as Hnh. split.
+  - intros d Hd Hpos. rewrite Hlog, (nraised_nonh _ _ _ Hnh) in Hpos. lia.
+  - intros d l1 l2 H. exfalso. rewrite Hlog in H. rewrite Forall_forall in Hl.
+    destruct (Hl (LFD DSucc d)) as (d' & Hd' & _); [|discriminate]. rewrite H. apply in_or_app. right. left. auto.
+Qed.
+
+Lemma n_exec : forall ls s, SInv s -> N1 s /\ N2 s -> N1 (exec ls s) /\ N2 (exec ls s).
+Proof.
+  induction ls as [|lb ls IH]; intros s HI H; simpl; auto.
+  apply IH; [now apply sinv_step | now apply n_step].
+Qed.
+
+(* ALL programs (nested Values, event.stop()): once a handler of an event has raised, the event's errors flag is
+   set and stays set *)
+Theorem errors_sticky : forall s e, reachable s -> e < next s ->
+  0 < nraised (spec s) e (log s) -> verrors (val s e) = true.
+Proof.
+  intros s e (roots & ls & ->) He. destruct (n_exec ls _ (sinv_start roots) (n_start roots)) as (A & _). now apply A.
+Qed.
+
+(* ... and <name>_success is never fired after a handler of the event has raised *)
+Theorem no_success_after_failure : forall s e l1 l2, reachable s ->
+  log s = l1 ++ LFD DSucc e :: l2 -> nraised (spec s) e l2 = 0.
+Proof.
+  intros s e l1 l2 (roots & ls & ->). destruct (n_exec ls _ (sinv_start roots) (n_start roots)) as (_ & B). apply B.
 Qed.
